@@ -150,7 +150,11 @@ func gobRoundTrip(tr interface{}) (after interface{}, viol string) {
 func c03Case(c *Ctx, tr interface{}, tag string) {
 	after, viol := gobRoundTrip(tr)
 	in := map[string]interface{}{"op": "gobRoundTrip", "v": tr}
-	c.Emit(in, after, true)
+	var shown interface{}
+	if after != nil {
+		shown = dropEmpties(after)
+	}
+	c.Emit(in, shown, true)
 	c.Tag(tag)
 	if viol != "" {
 		cls := "C03/roundtrip"
